@@ -1,7 +1,14 @@
------------------------------- MODULE DriverMC ------------------------------
+------------------------------ MODULE DriverMC  ------------------------------
 EXTENDS Driver
 W3 == [c \in {"a", "b", "c"} |-> IF c = "c" THEN "bi" ELSE "uni"]
 W2 == [c \in {"a", "c"} |-> IF c = "c" THEN "bi" ELSE "uni"]
-AllCauses == {"peer", "local", "proto", "handles"}
+AllCauses == {"peer", "local", "proto", "session", "handles"}
 TwoCauses == {"peer", "proto"}
+AllWT == [s \in Streams |-> "wt"]
+Foreign3 == [s \in Streams |-> IF s = 3 THEN "foreign" ELSE "wt"]
+Foreign2 == [s \in Streams |-> IF s = 2 THEN "foreign" ELSE "wt"]
+\* a control-like stream first, a WebTransport stream, a stream of unknown type, and a request-like bidi stream
+Mixed == [s \in Streams |-> CASE s = 1 -> "h3" [] s = 3 -> "junk" [] s = 11 -> "h3" [] OTHER -> "wt"]
+\* as Mixed, but the second uni stream is a protocol error (e.g. a duplicate control stream)
+MixedBad == [s \in Streams |-> CASE s = 1 -> "h3" [] s = 2 -> "bad" [] s = 11 -> "h3" [] OTHER -> "wt"]
 =============================================================================
